@@ -1,5 +1,5 @@
 from .. import facts
-from ..rules import codec
+from ..rules import factors, codec
 
 
 def run(ck):
@@ -19,3 +19,4 @@ def run(ck):
     bad = sum(len(ck.rules[r]['viol']) + len(ck.rules[r]['incomplete']) for r in ck.order if r.startswith(('C10-R1', 'C10-R2', 'C10-R7')))
     ck.obligations = (n, n - bad, './check C10 (pxv.bitprov over clang -O2 IR of generated wrappers)',
                       ['clang 14 -O2 folding of the wrappers preserves semantics', 'pxv/bitprov.py transfer functions', 'format layout oracle transcribed from pixman.h PIXMAN_FORMAT documentation (DESIGN Appendix B.2)'])
+    factors.r10f_simd_fetchers(ck, P, 'C10-R8')
